@@ -48,6 +48,20 @@ Theorem c14_written_lexicon : forall chardef lex unk user m f rows,
   /\ length (combine rows (mg_sets m)) = length rows.
 Proof. exact written_lexicon. Qed.
 
+(** user.csv of the same writer model: every user row comes back with its surface and feature bytes; its parameters
+    ([user_params]) are the merged model's for its label exactly when the row was given as 0,0,0, and otherwise the
+    row's own left id, right id and cost (re-rendered in canonical decimal, the same numbers) *)
+Theorem c14_user_rows : forall sc sets rows labels txt,
+  Forall lrow_ok rows -> Forall (fun r => s_surface (l_head r) <> []) rows -> Forall ids_ok sets ->
+  gen_user sc sets (map lentry rows) labels = Ok txt ->
+  exists ps, Forall2 (fun rl p => user_params sc sets (lentry (fst rl)) (snd rl) = Some p) (combine rows labels) ps /\
+             length ps = length rows /\
+             parse_lex_csv txt = Ok (map user_entry (combine rows ps)).
+Proof. exact user_roundtrip. Qed.
+Theorem c14_user_params_meaning : forall sc sets e lb w l r, nth_error sets (N.to_nat (lb - 1)) = Some (w, l, r) ->
+  user_params sc sets e lb = Some (if is_zero3 e then (l, r, f64_cost sc (f64_of_bits w)) else (le_lid e, le_rid e, le_cost e)).
+Proof. intros sc sets e lb w l r H. unfold user_params. rewrite H. now destruct (is_zero3 e). Qed.
+
 Example c14_f64_example :
   let ws := map f64_of_bits [4612811918334230528; 13826050856027422720; 0]%Z in   (* 2.5, -0.5, 0.0 *)
   map (f64_cost (f64_scale ws)) ws = [-32767; 6553; 0]%Z.
@@ -63,3 +77,5 @@ Print Assumptions c14_f64_cost_real.
 Print Assumptions c14_f64_costs_antitone.
 Print Assumptions c14_f64_cost_i16.
 Print Assumptions c14_written_lexicon.
+Print Assumptions c14_user_rows.
+Print Assumptions c14_user_params_meaning.
